@@ -250,12 +250,12 @@ def obligations(tier):
             d["fixed"] = {"t0": i % 4, "t1": i // 4}
             obs.append(d)
     else:
-        base = ob("C15", "e2c.forward", "vt.harness.C15:forward", {"steps": 6, "order": True, "bits": True, "fanout": "subset"}, timeout=7200)
+        base = ob("C15", "e2c.forward", "vt.harness.C15:forward", {"steps": 5, "order": True, "fanout": "pairs"}, timeout=7200)
         base["antecedents"] = ["c15_conducted"]
-        for i in range(16):
+        for i in range(49):
             d = dict(base)
             d["id"] = "C15.e2c.forward#%d" % i
-            d["fixed"] = {"e00": bool(i & 1), "e01": bool(i & 2), "e02": bool(i & 4), "e10": bool(i & 8)}
+            d["fixed"] = {"t0": i % 7, "t1": i // 7}
             obs.append(d)
     obs.append(ob("C15", "twin.forward", "vt.harness.C15:forward", {"steps": 4, "twin": True}, timeout=120))
     return obs
